@@ -343,7 +343,11 @@ def run_lookup_variants(r, res):
     try:
         texts = {}
         for nm in ("a.html", "a-b.html", "a_b.html", "a.b.html"):
-            texts[nm] = "FILE:%s|${x}|" % nm + gen_setorder(r)
+            # each file also has a def of the SAME name with its own signature: get_def(name).render(**data) passes
+            # the arguments that signature takes
+            sig, body = {"a.html": ("p, q='Q0'", "${p}|${q}"), "a-b.html": ("p, q='Q1'", "${p}|${q}"), "a_b.html": ("q='Q2', r='R2'", "${q}|${r}"),
+                         "a.b.html": ("**kw", "${sorted(kw)}")}[nm]
+            texts[nm] = "FILE:%s|${x}|" % nm + gen_setorder(r) + '<%%def name="it(%s)">IT@%s(%s)</%%def>' % (sig, nm, body)
             with open(os.path.join(root, nm), "w") as f:
                 f.write(texts[nm])
         called = []
@@ -398,6 +402,12 @@ def run_lookup_variants(r, res):
                         exp_out = ref_t.render_unicode(**CTX)
                         if out != exp_out:
                             res.violate("lookup-variant-output", "lookup %s: /%s loaded beside its siblings renders %r, its text alone renders %r" % (vname, nm, out, exp_out))
+                        data = {"p": "P", "q": "QQ", "r": "RR", "x": "X"}
+                        a = outcome(lambda: t.get_def("it").render_unicode(**data))
+                        b = outcome(lambda: ref_t.get_def("it").render_unicode(**data))
+                        res.count("get_def_compared")
+                        if a != b:
+                            res.violate("get-def-differs", "lookup %s: /%s loaded beside its siblings: get_def('it').render(**%r) gives %r, its text alone gives %r" % (vname, nm, data, a, b))
                         if sorted(t.list_defs()) != sorted(ref_t.list_defs()):
                             res.violate("defs-differ", "lookup %s: /%s loaded beside its siblings lists defs %r, its text alone %r" % (vname, nm, sorted(t.list_defs()), sorted(ref_t.list_defs())))
                 except Exception as e:
